@@ -502,7 +502,8 @@ class C06(ReduceProp):
     rule = ("arg-reductions and first/last family on data with few distinct values (ties) and NaNs, so that the extreme / first "
             "valid member occurs on both sides of chunk boundaries; chunkings: single chunk, all size-1 chunks, random; methods "
             "None / map-reduce / cohorts; split_every 2-4 (tree depth up to 4); oracle = first occurrence of the extreme over the "
-            "whole array / first (last) member in positional order")
+            "whole array / first (last) member in positional order; 35 % of the float first/last-family cases use datetime64 / "
+            "timedelta64 data with NaT (oracle only); integers beyond 2**53 for the arg-reductions")
     quick_n = 1200
     thorough_n = 15000
 
